@@ -69,10 +69,25 @@ var builtinCorpus = []Item{
 	{Name: "big-identifier", Src: "find all (digit = " + strings.Repeat("v", 5000) + ") " + strings.Repeat("v", 5000), Text: "11 12 22", Tags: []string{"big"}},
 	{Name: "big-regex-literal", Src: "find all @/" + strings.Repeat("ab", 2300) + "|k/", Text: "k ab k", Tags: []string{"big"}},
 	{Name: "big-in-list", Src: "find all at least 1 in " + bigInList(600), Text: "a1 zz 99", Tags: []string{"big"}},
+	{Name: "big-escapes-at-all-alignments", Src: escapesAtAlignments(), Text: "C:xampp k", Tags: []string{"big"}},
 	{Name: "err-undefined", Src: "find all nope", Text: "x"},
 	{Name: "err-parse", Src: "find all at least", Text: "x"},
 	{Name: "err-lex", Src: "find all 'unterminated", Text: "x"},
 	{Name: "err-type", Src: "set f to transform\n  return 1 == 1\nend\nreplace all 'a' with f", Text: "a"},
+}
+
+// escapesAtAlignments: string escapes (valid \\xHH, \\x followed by non-hex, \\t, \\\\) placed
+// so that they fall on every offset modulo 4096 within a few buffer lengths of source.
+func escapesAtAlignments() string {
+	var sb strings.Builder
+	sb.WriteString("find all 'k'\n")
+	for i := 0; sb.Len() < 13000; i++ {
+		sb.WriteString("find top 1 '")
+		sb.WriteString(strings.Repeat("p", i%23))
+		sb.WriteString([]string{"C:\\xampp", "\\x41b", "a\\tb", "\\\\x", "\\xZ", "q\\x4"}[i%6])
+		sb.WriteString("'\n")
+	}
+	return sb.String()
 }
 
 func bigInList(n int) string {
